@@ -43,6 +43,20 @@ func GenPlan(rng *rand.Rand, seed uint64, vt bool) Plan {
 			}
 		}
 	}
+	if wide := rng.IntN(5) == 0; wide && p.SlowRevokeMs == 0 {
+		// wide: a cooperative group that grows to 4-6 members over many partitions, with revoke
+		// callbacks slower than a rebalance round - a partition handed to a joiner in the same
+		// generation in which its previous owner only starts revoking shows as an overlap
+		p.Protocol = "cooperative"
+		p.Topics = 1 + rng.IntN(2)
+		p.Partitions = 6 + rng.IntN(7)
+		p.Initial = 2 + rng.IntN(2)
+		p.SlowRevokeMs = 350
+		p.Churn = append([]string{"join", "join", "join"}, p.Churn...)
+	}
+	if rng.IntN(3) == 0 {
+		p.LongProcessMs, p.LongFirstPoll, p.LongProcessP = 300, true, 0.03
+	}
 	if vt {
 		p.Yield = 0
 	}
